@@ -47,7 +47,7 @@ package engine
 //@   requires d != nil
 //@   requires [C08] a-valid-value: kind(got) != 0
 //@   ensures [C01,C04,C05,C06] decides-instance: ok == MatchOK(self, got, dmap(d), r)
-//@   ensures [C01,C02,C03,C04] binds: ok ==> dmap(d1) == MatchD(self, got, dmap(d), r)
+//@   ensures [C01,C02,C03,C04,C13] binds: ok ==> dmap(d1) == MatchD(self, got, dmap(d), r)
 //@   ensures [C02] never-rebinds: ok ==> keepsBindings(dmap(d), dmap(d1))
 //@   ensures d1 != nil
 //@   assigns nothing
@@ -327,7 +327,7 @@ package engine
 //@   requires slist != nil
 //@   assigns c.dots, elems(c.dots)
 //@   ensures c.dots.arr == old(c.dots.arr) || fresh(c.dots.arr)
-//@   at call (*engine.matcherCompiler).compile assert [C01,C04] framed-by-an-elision-at-each-end: arg1 == rvOf(boxed(list)) && (len(slist.List) == 0 ==> len(list) == 0) && (len(slist.List) > 0 ==> len(list) == len(slist.List) + 2 && isDotsStmtAt(list[0], c.patchStart) && isDotsStmtAt(list[len(slist.List) + 1], c.patchEnd) && forall j int {list[j + 1]} :: 0 <= j && j < len(slist.List) ==> list[j + 1] == slist.List[j])
+//@   at call (*engine.matcherCompiler).compile assert [C01,C04,C05] framed-by-an-elision-at-each-end: arg1 == rvOf(boxed(list)) && (len(slist.List) == 0 ==> len(list) == 0) && (len(slist.List) > 0 ==> len(list) == len(slist.List) + 2 && isDotsStmtAt(list[0], c.patchStart) && isDotsStmtAt(list[len(slist.List) + 1], c.patchEnd) && forall j int {list[j + 1]} :: 0 <= j && j < len(slist.List) ==> list[j + 1] == slist.List[j])
 //@   ensures [C01] m.typ == dyn("github.com/uber-go/gopatch/internal/engine.stmtSliceContainerMatcher") && unbox(m, "S_engine_stmtSliceContainerMatcher").Stmts != nil
 //@ func (c *replacerCompiler) compilePGoStmtList(slist) (m)
 //@   requires typing: compileEnvOK()
@@ -335,7 +335,7 @@ package engine
 //@   assigns c.dots, elems(c.dots), c.strayDots, elems(c.strayDots)
 //@   ensures c.dots.arr == old(c.dots.arr) || fresh(c.dots.arr)
 //@   ensures [C07,C08] recorded-stray-elisions-are-never-dropped: (c.strayDots.arr == old(c.strayDots.arr) || fresh(c.strayDots.arr)) && len(c.strayDots) >= old(len(c.strayDots))
-//@   at call (*engine.replacerCompiler).compile assert [C03,C04] framed-by-an-elision-at-each-end: arg1 == rvOf(boxed(list)) && (len(slist.List) == 0 ==> len(list) == 0) && (len(slist.List) > 0 ==> len(list) == len(slist.List) + 2 && isDotsStmtAt(list[0], c.patchStart) && isDotsStmtAt(list[len(slist.List) + 1], c.patchEnd) && forall j int {list[j + 1]} :: 0 <= j && j < len(slist.List) ==> list[j + 1] == slist.List[j])
+//@   at call (*engine.replacerCompiler).compile assert [C03,C04,C05] framed-by-an-elision-at-each-end: arg1 == rvOf(boxed(list)) && (len(slist.List) == 0 ==> len(list) == 0) && (len(slist.List) > 0 ==> len(list) == len(slist.List) + 2 && isDotsStmtAt(list[0], c.patchStart) && isDotsStmtAt(list[len(slist.List) + 1], c.patchEnd) && forall j int {list[j + 1]} :: 0 <= j && j < len(slist.List) ==> list[j + 1] == slist.List[j])
 //@   ensures [C03] m.typ == dyn("github.com/uber-go/gopatch/internal/engine.stmtSliceContainerReplacer") && unbox(m, "S_engine_stmtSliceContainerReplacer").Stmts != nil
 
 // ---- elision (C04) ---------------------------------------------------------------------------------
@@ -474,7 +474,7 @@ package engine
 //@   invariant forall i int {matches[i]} :: 0 <= i && i < len(matches) ==> matches[i] != nil && allocated(matches[i]) && matches[i].data != nil && slotTyped(matches[i].parent, matches[i].name, matches[i].index)
 //@   requires typing: curNode(cursor) != nil ==> slotTyped(curParent(cursor), curName(cursor), curIndex(cursor))
 //@   assigns matches, elems(matches)
-//@   ensures [C01,C03] never-prunes-code: curNode(cursor) != nil && curNode(cursor).typ != dyn("*go/ast.CommentGroup") ==> res
+//@   ensures [C01,C03,C04] never-prunes-code: curNode(cursor) != nil && curNode(cursor).typ != dyn("*go/ast.CommentGroup") ==> res
 //@   ensures [C08,C17] comments-are-not-code: curNode(cursor) != nil && !(curNode(cursor).typ != dyn("*go/ast.CommentGroup")) ==> !res && len(matches) == old(len(matches))
 //@   ensures [C01] records-exactly-the-instances: curNode(cursor) != nil && curNode(cursor).typ != dyn("*go/ast.CommentGroup") ==> len(matches) == old(len(matches)) + ite(MatchOK(m.NodeMatcher, rvOf(curNode(cursor)), dmap(d), nodeRegionOf(curNode(cursor))), 1, 0)
 //@   ensures [C01] nil-node-records-nothing: curNode(cursor) == nil ==> len(matches) == old(len(matches))
@@ -535,11 +535,11 @@ package engine
 //@   loop 0
 //@     invariant len(c.errors) == old(len(c.errors)) + (metaErrors - old(metaErrors)) && metaErrors >= old(metaErrors)
 //@     invariant c.errors.arr == old(c.errors.arr) || fresh(c.errors.arr)
-//@     invariant [C02,C06,C09,C11,C13] every-entry-of-the-table-was-declared-in-this-very-section: forall k string {has(vars, k)} :: has(vars, k) ==> (vars[k] == 1 || vars[k] == 2) && k != "_" && has(declPos, k)
+//@     invariant [C02,C03,C05,C06,C09,C11,C13] every-entry-of-the-table-was-declared-in-this-very-section: forall k string {has(vars, k)} :: has(vars, k) ==> (vars[k] == 1 || vars[k] == 2) && k != "_" && has(declPos, k)
 //@   loop 1
 //@     invariant len(c.errors) == old(len(c.errors)) + (metaErrors - old(metaErrors)) && metaErrors >= old(metaErrors)
 //@     invariant c.errors.arr == old(c.errors.arr) || fresh(c.errors.arr)
-//@     invariant [C02,C06,C09,C11,C13] every-entry-of-the-table-was-declared-in-this-very-section: forall k string {has(vars, k)} :: has(vars, k) ==> (vars[k] == 1 || vars[k] == 2) && k != "_" && has(declPos, k)
+//@     invariant [C02,C03,C05,C06,C09,C11,C13] every-entry-of-the-table-was-declared-in-this-very-section: forall k string {has(vars, k)} :: has(vars, k) ==> (vars[k] == 1 || vars[k] == 2) && k != "_" && has(declPos, k)
 //@     invariant t == 1 || t == 2
 
 // An identifier of the '-' pattern: a declared metavariable becomes a MetavarMatcher of its kind,
@@ -1137,7 +1137,9 @@ package engine
 //@   requires conns != nil
 //@   assigns allof("E.main_sourcePath"), allof("E.token_Pos"), allof("MH.Int.S_token_Position"), allof("MV.Int.S_token_Position"), allof("MH.Int.Int"), allof("MV.Int.Int")
 //@   ensures [C04,C13] associated-with-an-elision-at-or-before-it: forall k int {has(conns, k)} :: has(conns, k) && !old(has(conns, k)) ==> posLE(posOfFn(getPosition, conns[k]), posOfFn(getPosition, k))
+//@   ensures [C04,C13,C16] success-means-every-plus-elision-is-associated: err == nil ==> forall j int {rhs[j]} :: 0 <= j && j < len(rhs) ==> has(conns, rhs[j])
 //@   loop 0
+//@     invariant [C04,C13,C16] every-plus-elision-so-far-is-associated: forall j int {rhs[j]} :: 0 <= j && j < #k ==> has(conns, rhs[j])
 //@     invariant [C04,C13] associated-with-an-elision-at-or-before-it: forall k int {has(conns, k)} :: has(conns, k) && !old(has(conns, k)) ==> posLE(posOfFn(getPosition, conns[k]), posOfFn(getPosition, k))
 //@     invariant len(lhs) == old(len(lhs))
 
